@@ -46,6 +46,14 @@ def handleC13 : Sexp → Option Sexp
   | .list [.atom "reshape", n, h, w] => do
     let n ← n.toNat?; let h ← h.toNat?; let w ← w.toNat?
     some (idxResult (reshape (List.range n) h w))
+  | .list (.atom "nested" :: rows) => do
+    -- (nested (e…) (e…) …): Array2D(rows) with the shape inferred → (ok h w e…) | (err ValueError)
+    let rows ← rows.mapM fun r => match r with
+      | .list es => es.mapM Sexp.toInt?
+      | _ => none
+    match ofNested rows with
+    | .ok (h, w, data) => some (.list (.atom "ok" :: .ofNat h :: .ofNat w :: data.map .ofInt))
+    | .error e => some (errS e)
   | .list [.atom "sliceidx", n, a, b, c] => do
     let n ← n.toNat?; let a ← optInt? a; let b ← optInt? b; let c ← optInt? c
     match sliceIndices n a b c with
